@@ -317,3 +317,85 @@ mutant("c15-sort-after-shuffle", "C15", (ENV, "        transactions.shuffle(rng)
 mutant("c15-conditional-shuffle", "C15", (ENV, "        transactions.shuffle(rng);", "        if transactions.len() > 2 {\n            transactions.shuffle(rng);\n        }"), expect="shuffle")
 mutant("c15-rev-loop", ["C15"], (MENV, "for (i, t) in transactions.into_iter().enumerate() {", "for (i, t) in transactions.into_iter().rev().enumerate() {"), expect="shuffle")
 mutant("c15-hand-swap", "C15", (ENV, "        transactions.shuffle(rng);", "        transactions.shuffle(rng);\n        if transactions.len() > 1 {\n            transactions.swap(0, 1);\n        }"), expect="shuffle")
+
+# ------------------------------------------------------------------------------- C09
+mutant("c09-thread-rng-in-branch", "C09", (RUN, """        false => {
+            for _ in 0..n_steps {
+                agents.update(env, &mut rng);
+                env.step(&mut rng);
+            }
+        }
+    }
+}
+
+/// Run a multi-asset""", """        false => {
+            for _ in 0..n_steps {
+                agents.update(env, &mut rng);
+                env.step(&mut rand::thread_rng());
+            }
+        }
+    }
+}
+
+/// Run a multi-asset"""), expect=["deny-list", "runner"])
+mutant("c09-agent-own-generator", "C09", (NOISE, "            if rng.gen::<f32>() < self.params.p_market {\n                let side = rng.gen_bool(0.5);\n                match side {\n                    true => env\n                        .place_order(Side::Bid, self.params.trade_vol, *trader_id, None)",
+       "            if rng.gen::<f32>() < self.params.p_market {\n                let side = <rand_xoshiro::Xoroshiro128StarStar as rand::SeedableRng>::seed_from_u64(7).gen_bool(0.5);\n                match side {\n                    true => env\n                        .place_order(Side::Bid, self.params.trade_vol, *trader_id, None)"), expect=["construction", "threading"])
+mutant("c09-hashset-iteration", "C09", (COMMON, "    for order_id in to_cancel.into_iter() {\n        env.cancel_order(order_id);\n    }\n\n    live_orders\n}\n\n/// Place a buy order a random distance below",
+       "    let to_cancel: std::collections::HashSet<OrderId> = to_cancel.into_iter().collect();\n    for order_id in to_cancel.into_iter() {\n        env.cancel_order(order_id);\n    }\n\n    live_orders\n}\n\n/// Place a buy order a random distance below"), expect="deny-list", first=True)
+mutant("c09-instant-now", "C09", (COMMON, "    let dist = price_dist.sample(rng).abs();\n    let price = mid_price - dist;\n    let price = round_price_down(price, tick_size);\n    env.place_order(Side::Bid, trade_vol, trader_id, Some(price))",
+       "    let dist = price_dist.sample(rng).abs() + (std::time::Instant::now().elapsed().as_nanos() % 2) as f64;\n    let price = mid_price - dist;\n    let price = round_price_down(price, tick_size);\n    env.place_order(Side::Bid, trade_vol, trader_id, Some(price))", ), expect="deny-list", first=True)
+mutant("c09-branch-skips-update", "C09", (RUN, """        true => {
+            for _ in tqdm!(0..n_steps) {
+                agents.update(env, &mut rng);
+                env.step(&mut rng);
+            }
+        }
+        false => {
+            for _ in 0..n_steps {
+                agents.update(env, &mut rng);
+                env.step(&mut rng);
+            }
+        }
+    }
+}
+
+/// Run a multi-asset""", """        true => {
+            for _ in tqdm!(0..n_steps) {
+                env.step(&mut rng);
+                agents.update(env, &mut rng);
+            }
+        }
+        false => {
+            for _ in 0..n_steps {
+                agents.update(env, &mut rng);
+                env.step(&mut rng);
+            }
+        }
+    }
+}
+
+/// Run a multi-asset"""), expect="runner")
+mutant("c09-seed-constant", "C09", (RUN, "    let mut rng = Xoroshiro128StarStar::seed_from_u64(seed);\n\n    match show_progress {\n        true => {\n            for _ in tqdm!(0..n_steps) {\n                agents.update(env, &mut rng);\n                env.step(&mut rng);\n            }\n        }\n        false => {\n            for _ in 0..n_steps {\n                agents.update(env, &mut rng);\n                env.step(&mut rng);\n            }\n        }\n    }\n}\n\n/// Run a multi-asset",
+       "    let mut rng = Xoroshiro128StarStar::seed_from_u64(seed / 2);\n\n    match show_progress {\n        true => {\n            for _ in tqdm!(0..n_steps) {\n                agents.update(env, &mut rng);\n                env.step(&mut rng);\n            }\n        }\n        false => {\n            for _ in 0..n_steps {\n                agents.update(env, &mut rng);\n                env.step(&mut rng);\n            }\n        }\n    }\n}\n\n/// Run a multi-asset"), expect="construction")
+
+# ------------------------------------------------------------------------------- C14
+mutant("c14-cancel-constant-asset", "C14", (MKT, "        self.order_books[order_id.0].cancel_order(order_id.1)", "        self.order_books[0].cancel_order(order_id.1)"), expect="per-asset")
+mutant("c14-id-as-asset", "C14", (MKT, "        self.order_books[order_id.0].modify_order(order_id.1, new_price, new_vol)", "        self.order_books[order_id.1 % ASSETS].modify_order(order_id.1, new_price, new_vol)"), expect="per-asset")
+mutant("c14-ask-best-vols-bid", "C14", (MKT, "        array::from_fn(|i| self.order_books[i].ask_best_vol())", "        array::from_fn(|i| self.order_books[i].bid_best_vol())"), expect="all-asset")
+mutant("c14-levels-shifted-index", "C14", (MKT, "        array::from_fn(|i| self.order_books[i].ask_levels())", "        array::from_fn(|i| self.order_books[(i + 1) % ASSETS].ask_levels())"), expect="all-asset")
+mutant("c14-l2-mixed-books", "C14", (MKT, "                ask_price_levels: self.order_books[i].ask_levels(),", "                ask_price_levels: self.order_books[0].ask_levels(),"), expect="all-asset")
+mutant("c14-set-time-skip", "C14", (MKT, "    pub fn set_time(&mut self, t: Nanos) {\n        for book in self.order_books.iter_mut() {", "    pub fn set_time(&mut self, t: Nanos) {\n        for book in self.order_books.iter_mut().skip(1) {"), expect="fan-out")
+mutant("c14-create-returns-wrong-asset", "C14", (MKT, "        let id = self.order_books[asset].create_order(side, vol, trader_id, price)?;\n        Ok((asset, id))", "        let id = self.order_books[asset].create_order(side, vol, trader_id, price)?;\n        Ok((id % ASSETS, id))"), expect="per-asset")
+mutant("c14-menv-getter-asset-zero", "C14", (MENV, "        &self.level_2_data_records[asset].volumes\n", "        &self.level_2_data_records[0].volumes\n"), expect="market-env")
+mutant("c14-vol-trader-swapped", "C14", (MKT, "        let id = self.order_books[asset].create_and_place_order(side, vol, trader_id, price)?;", "        let id = self.order_books[asset].create_and_place_order(side, trader_id, vol, price)?;"), expect="per-asset")
+
+# ------------------------------------------------------------------------------- C20
+mutant("c20-rev-fields", "C20", (MACROS, "    for field in fields {\n        let field_name = field.ident.clone();\n\n        if field_name.is_some() {\n            call_tokens.extend(quote!(\n                self.#field_name.update(env, rng);\n            ));\n        }\n    }\n\n    let output = quote! {\n        impl bourse_de::agents::AgentSet",
+       "    for field in fields.iter().rev() {\n        let field_name = field.ident.clone();\n\n        if field_name.is_some() {\n            call_tokens.extend(quote!(\n                self.#field_name.update(env, rng);\n            ));\n        }\n    }\n\n    let output = quote! {\n        impl bourse_de::agents::AgentSet"), expect=["macro", "generated"])
+mutant("c20-skip-after-four", "C20", (MACROS, "    for field in fields {\n        let field_name = field.ident.clone();\n\n        if field_name.is_some() {\n            call_tokens.extend(quote!(\n                self.#field_name.update(env, rng);\n            ));\n        }\n    }\n\n    let output = quote! {\n        impl bourse_de::agents::MarketAgentSet",
+       "    for field in fields.iter().take(4) {\n        let field_name = field.ident.clone();\n\n        if field_name.is_some() {\n            call_tokens.extend(quote!(\n                self.#field_name.update(env, rng);\n            ));\n        }\n    }\n\n    let output = quote! {\n        impl bourse_de::agents::MarketAgentSet"), expect=["macro", "generated"])
+mutant("c20-duplicate-call", "C20", (MACROS, "            call_tokens.extend(quote!(\n                self.#field_name.update(env, rng);\n            ));\n        }\n    }\n\n    let output = quote! {\n        impl bourse_de::agents::AgentSet",
+       "            call_tokens.extend(quote!(\n                self.#field_name.update(env, rng);\n                self.#field_name.update(env, rng);\n            ));\n        }\n    }\n\n    let output = quote! {\n        impl bourse_de::agents::AgentSet"), expect=["macro", "generated"])
+mutant("c20-type-dependent", "C20", (MACROS, "        let field_name = field.ident.clone();\n\n        if field_name.is_some() {\n            call_tokens.extend(quote!(\n                self.#field_name.update(env, rng);\n            ));\n        }\n    }\n\n    let output = quote! {\n        impl bourse_de::agents::AgentSet",
+       "        let field_name = field.ident.clone();\n\n        if field_name.is_some() && !matches!(field.vis, syn::Visibility::Inherited) {\n            call_tokens.extend(quote!(\n                self.#field_name.update(env, rng);\n            ));\n        }\n    }\n\n    let output = quote! {\n        impl bourse_de::agents::AgentSet"), expect=["macro"])
+mutant("c20-body-twice", "C20", (MACROS, "            fn update<R: rand::RngCore>(&mut self, env: &mut bourse_de::Env, rng: &mut R) {\n                #call_tokens\n            }", "            fn update<R: rand::RngCore>(&mut self, env: &mut bourse_de::Env, rng: &mut R) {\n                #call_tokens\n                #call_tokens\n            }"), expect=["macro", "generated"])
